@@ -31,6 +31,10 @@ CHECKS = {
    text="TLC checks Units.tla in model mode (a unit text selects one factor per class; symbols matched on the text exactly as written) and, in trace mode, takes the unit and modifier sections of each bundled schema (independent XML reader) as constants and validates every verdict of the real code: acceptance vs UNITS_INVALID for every value-taking tag with unit classes x every unit (name spellings in 4 letter cases, singular/plural; symbols exact and in wrong case) x permitted and non-permitted SI modifiers x right/wrong side of the number x foreign-class and junk units x 9 numeric literals; bare numbers draw only the missing-unit warning; conversion defined iff accepted and a factor is declared, never an exception, and the factor is one the text selects (quick: 3 schemas ~11k events; thorough: all 11 schemas, all 41 modifiers, ~119k events)",
    note="value = n x factor and linearity are compared by the driver with exact rationals (TLC has no reals); plural table hand-written; '^' in factors read as 'e'; folding by the harness",
    technique="TLA+ spec + TLC model checking; TLC trace validation at vocabulary scale"),
+ "C01": dict(
+   text="HedRules.tla gives, for an abstract annotation tree (groups + 10 tag kinds) and text damage, the set of rule instances it violates, phase by phase (text checks, per-tag checks, group/whole-string checks incl. tag-group/top-level placement, Delay pairing, unique, repeated tag/group up to order, Onset/Inset/Offset and Duration/Delay group shape). TLC enumerates every tree <= 3 nodes x 4 text damages (7880; <= 4 nodes = 130k in thorough) plus deep trees <= 6 nodes sampled by simulating the growth grammar, with their verdicts; each is concretised for all 11 bundled schemas by rotation over the whole vocabulary (all plain tags x spellings, all value-taking tags, 12 per-tag flaw kinds) and validated by the real code with placeholders allowed and disallowed: clean => no error; exactly one violated rule instance => its specification code is reported",
+   note="bounded tree size; Definition groups and Def-expand alteration are decided in C09; multi-violation trees compared for information only",
+   technique="TLA+ spec + TLC enumeration/simulation; exhaustive case replay at vocabulary scale"),
 }
 ALL = ["C%02d" % i for i in range(1, 21)]
 m = {
